@@ -16,6 +16,10 @@ def small_read(tier):
         dict(name="r_span3", params=dict(B=32, Q=2, NREADS=-1), items=[can(i) for i in range(1, 5)], conts=[16] * 12),
         dict(name="r_n4", params=dict(B=48, Q=1, NREADS=-1), items=[can(i) for i in range(1, 5)], conts=[48] * 4),
         dict(name="r_stall", params=dict(B=48, Q=1, NREADS=1), items=[can(i) for i in range(1, 5)], conts=[96, 96], spur=1),
+        # a hand-made file: the second stored container carries 40 bytes more than it declares.  The accounting
+        # (flow control, positions, dropOldData) counts declared sizes, so such a container must be refused
+        dict(name="r_surplus", params=dict(B=48, Q=1, NREADS=-1, METHOD=0, BADCONT=1, SURPLUS=40), items=[can(i) for i in range(1, 4)],
+             conts=[48, 48, 48]),
     ]
     if tier == "thorough":
         g += [dict(name="r_n8", params=dict(B=32, Q=2, NREADS=-1), items=[can(i) for i in range(1, 7)], conts=[36] * 8)]
